@@ -11,6 +11,7 @@ import asyncio
 import asyncio.base_events
 import contextvars
 import itertools
+import math
 import time as _real_time
 
 NODE: contextvars.ContextVar = contextvars.ContextVar('sim_node', default=None)
@@ -89,7 +90,6 @@ class SimLoop(asyncio.base_events.BaseEventLoop):
     def __init__(self, start_time: float = 1000.0):
         super().__init__()
         self._now = float(start_time)
-        self._clock_resolution = 1e-9
         self._selector = _FakeSelector(self)
         self.set_task_factory(_task_factory)
         self.iterations = 0
@@ -105,6 +105,16 @@ class SimLoop(asyncio.base_events.BaseEventLoop):
     # clock ----------------------------------------------------------------
     def time(self):
         return self._now
+
+    # _run_once fires timers with ``when < time() + _clock_resolution``.  A real clock has
+    # ~1 ns resolution; here it is a few ulps so that plans can place events 1 ns apart.
+    @property
+    def _clock_resolution(self):
+        return 4.0 * math.ulp(self._now)
+
+    @_clock_resolution.setter
+    def _clock_resolution(self, value):
+        pass
 
     # selector plumbing ----------------------------------------------------
     def _process_events(self, event_list):
